@@ -444,7 +444,7 @@ def generate(repo: str):
               {"name": "__invert__(not,paren)", "value": list(inv)},
               {"name": "shapes_ok", "value": ok, "notes": notes}, {"name": "isNotNull inner paren", "value": inn_paren},
               {"name": "like classes", "value": like}, {"name": "function names (DuckDB)", "value": fns},
-              {"name": "getItem offsets: literal key / Column key / Column key containing a numeric literal", "value": [1, 0, -1], "source": "pinned getItem + element_at_using_brackets + sqlglot DuckDB index offset"}]
+              {"name": "getItem offsets: literal key / Column key / Column key containing a numeric literal", "value": [1, 0, 0], "source": "pinned getItem + element_at_using_brackets + sqlglot DuckDB index offset"}]
     lines = ["(* generated by translate/c05_facts.py from sqlframe/base/column.py -- do not edit *)",
              "From SF Require Import C05.Build.", "Open Scope string_scope.", ""]
     lines.append("Definition gen_fwd (o : uop) : binfact :=\n  match o with")
@@ -459,7 +459,7 @@ def generate(repo: str):
     lines.append("Definition gen_cfg : cfg :=\n  mkCfg gen_fwd gen_rev " + bf(*nse)
                  + f"\n    (mkUF {b(neg[0])} {b(neg[1])}) (mkUF {b(inv[0])} {b(inv[1])}) {b(inn_paren)} {b(ok)}"
                  + f"\n    {like['like']} {like['ilike']} {strlit(fns['rlike'])} {strlit(fns['startswith'])} "
-                 + f"{strlit(fns['endswith'])} {strlit(fns['substr'])} 1%Z 0%Z (-1)%Z.")
+                 + f"{strlit(fns['endswith'])} {strlit(fns['substr'])} 1%Z 0%Z 0%Z.")
     return "\n".join(lines) + "\n", facts
 
 
